@@ -91,9 +91,14 @@ class Geometry:
     with np.errstate(all='ignore'):
       self.lon_w = self.lon_ov / self.wlon_t[:, None]
       self.lat_w = self.lat_ov / self.wlat_t[:, None]
+    gaps = [np.mod(np.roll(np.mod(p, TWO_PI), -1) - np.mod(p, TWO_PI), TWO_PI) for p in
+            (np.asarray(lon_s, dtype=float), np.asarray(lon_t, dtype=float))]
+    # domain of the longitude theorems: circular gaps below half a period (cells are what the oracle
+    # says) and width_s + width_t <= half a period (overlaps are what the oracle says)
     self.lon_domain = bool(len(self.wlon_s) >= 3 and len(self.wlon_t) >= 3 and
-                           self.wlon_s.max() + self.wlon_t.max() <= TWO_PI / 2 * (1 + 1e-12) and
-                           self.wlon_s.min() > 0 and self.wlon_t.min() > 0)
+                           max(g.max() for g in gaps) < TWO_PI / 2 * (1 - 1e-9) and
+                           min(g.min() for g in gaps) > 0 and
+                           self.wlon_s.max() + self.wlon_t.max() <= TWO_PI / 2 * (1 + 1e-12))
     self.area_s = self.wlon_s[:, None] * self.wlat_s[None, :]
     self.area_t = self.wlon_t[:, None] * self.wlat_t[None, :]
 
@@ -223,7 +228,7 @@ def run(ctx: common.Ctx):
 
   # ================================================================ correspondence
   # ---- 1. coordinate vectors: raw (sizes 1,2,3 first, non-uniform) and from Grid objects
-  nvec = ctx.n(40, 400)
+  nvec = ctx.n(24, 360)
   for ci in range(nvec):
     ns, nt = pick_shape(ctx, SHAPES, ci)
     kind = ['uniform', 'mild', 'strong'][ci % 3]
@@ -321,7 +326,7 @@ def run(ctx: common.Ctx):
     add(f'regrid F vertw {fvec(sb)} {fvec(tb)}', 'conservative_regrid_weights', inp,
         np.asarray(vi.conservative_regrid_weights(jnp.asarray(sb), jnp.asarray(tb))))
 
-  nhy = ctx.n(8, 60)
+  nhy = ctx.n(6, 60)
   hybrid_cases = []
   for ci in range(nhy):
     forced = {0: 1, 1: 2}.get(ci)
@@ -353,7 +358,7 @@ def run(ctx: common.Ctx):
             f'{fvec(f[:, i, j])}', 'regrid_hybrid_to_sigma', inp, out[:, i, j], 'vec')
 
   # ---- 5. the regridder objects: weights and __call__ with NaN patterns, both skipna modes
-  npairs = ctx.n(14, 120)
+  npairs = ctx.n(11, 100)
   pairs = []
   for pi, (ss, ts, tag) in enumerate(grid_pair_specs(rng, npairs)):
     gs, gt = make_grid(sh, *ss), make_grid(sh, *ts)
@@ -362,6 +367,15 @@ def run(ctx: common.Ctx):
     ctx.dist[f'pair:lat:{ss[2]}->{ts[2]}'] += 1
     rel = 'finer' if ts[0] * ts[1] > ss[0] * ss[1] else 'coarser' if ts[0] * ts[1] < ss[0] * ss[1] else 'equal-size'
     ctx.dist[f'pair:{rel}'] += 1
+    # hypotheses of Dino.C16.lonWeights_conservative_of_points / latWeights_conservative on this pair
+    def max_gap(p):
+      return float(np.max(np.concatenate([np.diff(p), [TWO_PI - (p[-1] - p[0])]])))
+    in_period = all(0 <= p[0] and p[-1] < TWO_PI for p in (gs.longitudes, gt.longitudes))
+    applies = in_period and max_gap(gs.longitudes) + max_gap(gt.longitudes) <= TWO_PI / 2
+    ctx.dist[f'hyp:lonWeights_conservative_of_points applies={applies}'] += 1
+    lat_ok = all((np.diff(x) > 0).all() and x[0] >= -HALF_PI and x[-1] <= HALF_PI for x in (gs.latitudes, gt.latitudes))
+    ctx.obligation(f'hypotheses of latWeights_conservative hold for {ss}->{ts}', 'hypothesis', lat_ok,
+                   'latitudes strictly increasing inside [-pi/2, pi/2]')
     regs = {skip: hi.ConservativeRegridder(gs, gt, skipna=skip) for skip in (False, True)}
     inp0 = dict(source=ss, target=ts)
     pairs.append((ss, ts, tag, gs, gt, geo, regs))
@@ -566,7 +580,7 @@ def probe_pair(ctx, jnp, hi, ss, ts, tag, gs, gt, geo, regs):
 def probe_vectors(ctx, jnp, hi):
   """Weight functions on raw non-uniform coordinate vectors (non-nested partitions)."""
   rng = ctx.rng
-  for ci in range(ctx.n(30, 300)):
+  for ci in range(ctx.n(18, 300)):
     ns, nt = pick_shape(ctx, SHAPES, ci, min_size=4)
     kinds = ['uniform', 'mild', 'strong']
     lon_s = random_increasing(rng, ns, 0, TWO_PI, kinds[ci % 2]) + float(rng.choice([0, rng.uniform(-7, 7)]))
@@ -580,9 +594,12 @@ def probe_vectors(ctx, jnp, hi):
     with ctx.impl('probe-exception', inp):
       tw = np.asarray(hi.conservative_latitude_weights(lat_s, lat_t))
       lw = np.asarray(hi.conservative_longitude_weights(lon_s, lon_t))
-      ctx.expect((tw >= 0).all() and (lw >= 0).all(), 'weights-nonneg', 'negative regridding weight', inp)
-      ctx.expect(np.abs(tw.sum(1) - 1).max() < 1e-12 and np.abs(lw.sum(1) - 1).max() < 1e-12, 'rows-sum-to-one',
-                 'rows of a weight matrix do not sum to one', inp)
+      # rows without any overlap (possible outside the longitude domain) are 0/0 = NaN: excluded
+      fin = np.isfinite(lw).all(1)
+      ctx.expect(geo.lon_domain <= bool(fin.all()), 'lon-weights-nan', 'NaN longitude weights inside the domain', inp)
+      ctx.expect((tw >= 0).all() and (lw[fin] >= 0).all(), 'weights-nonneg', 'negative regridding weight', inp)
+      ctx.expect(np.abs(tw.sum(1) - 1).max() < 1e-12 and np.abs(lw[fin].sum(1) - 1).max(initial=0) < 1e-12,
+                 'rows-sum-to-one', 'rows of a weight matrix do not sum to one', inp)
       ctx.expect(np.abs(tw - geo.lat_w).max() < 1e-10, 'lat-weights-oracle',
                  'latitude weights differ from overlap(sin lat)/target cell size', inp)
       x = rng.standard_normal(ns)
